@@ -216,7 +216,14 @@ def _attribute(d, g, reg, fn_at, gl, unit):
             hint = org["ref"]
         # scan the whole span for tags too (multi-line clause)
         if org.get("kind") in ("repo", "rule", "sig", "drop") and org.get("line") and (repo_site is None or sp.get("is_primary")):
-            repo_site = {"file": org["file"], "line": org["line"], "text": gl[ln0].strip()[:200], "label": sp.get("label")}
+            expr = None
+            try:
+                t0 = sp["text"][0]
+                if sp["line_start"] == sp["line_end"]:
+                    expr = t0["text"][t0["highlight_start"] - 1:t0["highlight_end"] - 1]
+            except Exception:
+                pass
+            repo_site = {"file": org["file"], "line": org["line"], "text": gl[ln0].strip()[:200], "label": sp.get("label"), "expr": expr}
     # ensures failure: spans = clause + exit point
     msg = d.get("message", "")
     if clause and clause in reg:
